@@ -116,6 +116,14 @@ theorem written_body_behaves_as_source (e : PEnv) (m : IdMaps) (ρ : Ren) (body 
   refine ⟨_, written_body_is_ren_elide_of_source e m ρ body hw endLoc ops u ho t ht ha, fun s => ?_⟩
   rw [ren_execL ρ C' C hc R'' R' hr t.elide s hl, elide_execL C R' R he t s]
 
+/-- for operators without entity operands (constants, arithmetic, comparisons, conversions, `drop`,
+    `select`, …) the agreement hypothesis holds outright, for every environment, maps and `ρ` -/
+theorem operators_without_entity_operands_agree (e : PEnv) (m : IdMaps) (ρ : Ren) (o : Op)
+    (hs : structuralName o.name = false)
+    (hc : o.name ≠ "Br" ∧ o.name ≠ "BrIf" ∧ o.name ≠ "BrTable" ∧ o.name ≠ "Return" ∧ o.name ≠ "Unreachable" ∧
+      o.name ≠ "Nop") (hr : noRefs o.args) : agreeI e m ρ (.op o) = true :=
+  agree_of_noRefs e m ρ o hs hc hr
+
 -- non-vacuity: a body with a nop, a call, a block whose branch is followed by dead code, an `if`
 -- without `else`; functions 0 and 1 swapped by the emit-time map and by ρ
 def srcBody : PL :=
